@@ -492,8 +492,13 @@ def run(repo, rep, tier):
                             'anchor svr_resp_time vanished)')
     # ---- R6 ---------------------------------------------------------------
     r6.functions.add(wreq.fq)
+    # with the private helpers of the module inlined, so that it does not
+    # matter where the Authorization header is put together
+    from ..inline import Flat as _Flat6
+    wreq6 = _Flat6(wreq)
     tainted = set()
-    for n in walk_no_nested(wreq.node):
+    for _round in range(3):
+      for n in walk_no_nested(wreq6.node):
         if isinstance(n, ast.Assign):
             txt = norm(n.value, 400)
             tgt = n.targets[0]
@@ -513,7 +518,7 @@ def run(repo, rep, tier):
     # the credential must be seen to flow into the headers handed to the
     # transport (otherwise the taint analysis lost track of it)
     post_args = set()
-    for c in walk_no_nested(wreq.node):
+    for c in walk_no_nested(wreq6.node):
         if isinstance(c, ast.Call) and \
                 (dotted(c.func) or '').endswith('session.post'):
             for a in list(c.args) + [k.value for k in c.keywords]:
@@ -523,7 +528,7 @@ def run(repo, rep, tier):
         raise AnalysisError('wbem_request: credential flow not recognised '
                             '(tainted=%s)' % sorted(tainted))
     sinks = 0
-    for c in walk_no_nested(wreq.node):
+    for c in walk_no_nested(wreq6.node):
         if not isinstance(c, ast.Call):
             continue
         d = dotted(c.func) or ''
@@ -950,7 +955,7 @@ def toyaml_returns_plain_values(repo, rep):
                         'representer for that type, record() raises '
                         'RepresenterError and the operation fails only '
                         'because the TestClientRecorder is enabled'
-                        % detail)
+                        % detail, alt='returns %s' % detail)
     if r14.sites < 15:
         raise AnalysisError('C19.R14: only %d return statements of toyaml '
                             'judged' % r14.sites)
